@@ -30,6 +30,7 @@ type GenCfg struct {
 	OtherPresPct  int                                     // percent of later attaches that ask for the other disable_presence value
 	DeactivatePct int                                     // percent of "detach" actions that are a server-side deactivation instead
 	HostilePct    int                                     // percent chance per attach (presenceless docs) that the replica keeps sending presence anyway
+	SingleWriter  bool                                    // only replica 0 edits; the others sync (and collect) at their own pace
 }
 
 // noGCProfile is what a replica attached with disable_gc may do (docs/design/disable-gc-on-attach.md).
@@ -112,8 +113,20 @@ func (w *World) RunGenerated(rng *rand.Rand, g GenCfg) History {
 			offlineLeft--
 		}
 		x := rng.Intn(100)
+		editPct := g.EditPct
+		if g.SingleWriter && ri == 0 {
+			// the writer syncs seldom: it keeps tombstones that its readers purge meanwhile
+			editPct = 80
+		}
 		switch {
-		case x < g.EditPct || isOffline:
+		case (x < editPct || isOffline) && g.SingleWriter && ri != 0:
+			// a reader: it only pulls (and collects)
+			if r.Pending != nil {
+				do(Step{T: "syncEnd", R: ri})
+			} else {
+				do(Step{T: "sync", R: ri})
+			}
+		case x < editPct || isOffline:
 			if g.UndoPct > 0 && rng.Intn(100) < g.UndoPct {
 				if rng.Intn(3) == 0 {
 					do(Step{T: "redo", R: ri})
